@@ -199,6 +199,7 @@ pub struct Agg {
     pub remainders: u64,
     pub remainder_items: u64,
     pub violations: u64,
+    pub other_props: u64,
     pub printed: u64,
     pub samples: Vec<J>,
 }
@@ -289,14 +290,20 @@ fn run_one(a: &Args, c: &Case, id: &str, agg: &mut Agg, max_print: u64) -> ExecO
         }
     }
     agg.case_hashes.insert(c.hash);
+    let prop = a.get("prop");
     for v in &out.violations {
         agg.violations += 1;
         *agg.per_rule.entry(v.rule.to_string()).or_default() += 1;
+        // only violations of the property under check are written out (the print budget is theirs)
+        if prop.map(|p| !v.props.contains(&p)).unwrap_or(false) {
+            agg.other_props += 1;
+            continue;
+        }
         if agg.printed < max_print {
             agg.printed += 1;
             let mut replay: Vec<String> = vec!["run".into()];
             for (k, val) in &a.kv {
-                if k != "only" && k != "execs" && k != "shard" && k != "nshards" {
+                if k != "only" && k != "execs" && k != "shard" && k != "nshards" && k != "hash-out" {
                     replay.push(format!("--{}={}", k, val));
                 }
             }
@@ -482,6 +489,7 @@ fn cmd_run(a: &Args) -> i32 {
         .set("per_len", J::from_map(&agg.per_len))
         .set("per_rule", J::from_map(&agg.per_rule))
         .set("violations", J::u64(agg.violations))
+        .set("violations_of_other_properties", J::u64(agg.other_props))
         .set("samples", J::A(agg.samples.clone()))
         .set("wall_s", J::F(t0.elapsed().as_secs_f64()));
     write_hashes(a.get("hash-out"), agg.nontrivial.iter());
